@@ -6,7 +6,7 @@ from unittest.mock import Mock
 import magicbot
 from magicbot.inject import MagicInjectError
 
-SEED = int(os.environ.get("VERIF_SEED", "0")); N = int(os.environ.get("C08_TRIALS", "400"))
+SEED = int(os.environ.get("VERIF_SEED", "0")); N = int(os.environ.get("C08_TRIALS", "400")) * int(os.environ.get("VERIF_SCALE", "1"))
 rnd = random.Random(SEED)
 
 
